@@ -55,6 +55,17 @@ Theorem C16_progress : forall batch peer q l1 e l2,
   exists q' sel, select_peer batch peer q = Ok (q', sel) /\ In (e_hash e, e_id e) sel.
 Proof. exact select_peer_progress. Qed.
 
+(* completeness over several rounds (bounded liveness under the stated environment
+   assumption): if every block handed out in a round arrives before the next round
+   ([ideal_round] = sort, hand out, all handed-out blocks fetched), then after k+1 rounds
+   exactly the first (k+1)*batch queued entries, in (height, hash) order, have been
+   requested and received; the entry at sorted position i is requested in round
+   i / batch + 1 *)
+Theorem C16_rounds : forall k batch q,
+  all_queued q ->
+  rounds (S k) batch q = skipn (S k * N.to_nat batch) (sort_by entry_le q).
+Proof. exact rounds_spec. Qed.
+
 (* non-vacuity: a concrete non-trivial reachable state, and a round on it *)
 Example C16_example :
   let ops := [OAdd 7 3 1; OAdd 5 2 1; OAdd 9 4 1; OAdd 5 2 2; OBuild [9]; OSelect;
@@ -68,3 +79,4 @@ Print Assumptions C16_no_double_flight.
 Print Assumptions C16_bounded_retries.
 Print Assumptions C16_round_sorted.
 Print Assumptions C16_progress.
+Print Assumptions C16_rounds.
